@@ -61,7 +61,12 @@ const GLOBAL_VALUES: [&str; 3] = ["x", "'b'", "y "];
 
 const SLOT: [&str; 9] = ["a", "b", "c", "x", "\"a\"", "\\b", "a'c'", "v=a", "G"];
 
-const TEMPLATES: [&str; 36] = [
+const TEMPLATES: [&str; 41] = [
+    "command _ _",
+    "command command _ _",
+    "x ; command _",
+    "_ _ ) _ ;; esac",
+    "case x in ( _ ) _ ;; ( _ | _ ) _ ;; esac",
     "_",
     "_ _",
     "_ _ _",
@@ -197,7 +202,13 @@ fn check_one(ctx: &Ctx, table: &Table, line: &str, origin: &str) {
 }
 
 /// cases that exposed defects earlier (run in every tier)
-const REGRESSION: [(&str, &str, &str, &str); 4] = [
+const REGRESSION: [(&str, &str, &str, &str); 8] = [
+    // a case pattern right after a blank-ending alias value that ends in `(`
+    ("case b in ( ", "x", "b", "a c ) x ;; esac"),
+    ("case b in ( ", "x", "b", "a b ) x ;; esac"),
+    ("case b in ", "x ", "b", "a c ) x ;; esac"),
+    // the word after `command` is an argument, not a command name
+    ("x y", "b", "b", "command a c"),
     ("b\nc", " ", "b", "x && a \\b || v=a \\b"),
     ("b\nc", "", "x\t", "x && \\\n a"),
     (" ", "x &&", "b ", "b a\na'c' \\b"),
@@ -292,4 +303,4 @@ pub fn run(ctx: &Ctx) {
     ctx.assume("both sides are parsed by the same real parser; when both end in a syntax error only the trees before it and the kind of error are compared");
 }
 
-pub const RULE: &str = "all alias tables a,b,c -> values^3 over 16 (quick) / 32 values {another name, name+blank, self, two words, empty, blank only, tab-ending, reserved words if ! { then do fi }, operators ; | && ( , redirection, assignment, quoted forms, embedded newline} (+ a global alias G in every third table) x {36 templates with an alias name in every slot; 40/120 random fillings of the templates (command, argument, after assignment, after redirection, after ! ( { if then else elif while until do, for words, case subject/pattern/body, after line continuation and after newline following && |); 20/60 token-soup lines}. Real parser with a look-up-counting Glossary vs the same parser without aliases on the text substituted by hand by models::alias; trees compared with locations erased; look-up bound 50 x tokens x aliases; CPU-time watchdog. evaluations = (table, line) pairs; distinct_nontrivial = distinct (line, substituted text) pairs with at least one substitution";
+pub const RULE: &str = "all alias tables a,b,c -> values^3 over 16 (quick) / 32 values {another name, name+blank, self, two words, empty, blank only, tab-ending, reserved words if ! { then do fi }, operators ; | && ( , redirection, assignment, quoted forms, embedded newline} (+ a global alias G in every third table) x {41 templates with an alias name in every slot; 40/120 random fillings of the templates (command, argument, after assignment, after redirection, after ! ( { if then else elif while until do, for words, case subject/pattern/body, after line continuation and after newline following && |); 20/60 token-soup lines}. Real parser with a look-up-counting Glossary vs the same parser without aliases on the text substituted by hand by models::alias; trees compared with locations erased; look-up bound 50 x tokens x aliases; CPU-time watchdog. evaluations = (table, line) pairs; distinct_nontrivial = distinct (line, substituted text) pairs with at least one substitution";
